@@ -5,8 +5,12 @@
      IAM RPC itself (in the first or in a later service): exposed set = {RPC of a listed API that has a rule}; IAM
      mixins yield entirely to a same-named RPC of the API; REST option rows equal the YAML rule.
  (2) per rendered program (concrete): the emitted sync/async clients define exactly the selected mixin methods, the
-     gRPC stub paths are the canonical /google.<...>/<Method>, the add-iam-methods option exposes the three IAM RPCs on
-     sync and async clients alike.
+     gRPC stub each of them dispatches through has the canonical /google.<...>/<Method> path with the standard request
+     and response types, the add-iam-methods option (alone and together with the IAM mixin) exposes the three IAM RPCs
+     on sync and async clients alike.
+ (3) CrossHair/z3 over the EMITTED mixin methods (harness/h17_call.py): for ALL (mixin RPC, request kind, routing
+     value, options) exactly one dispatch on the right wrapped method with the standard request type, the routing
+     header (name|resource = value) appended to the caller's metadata, the caller's retry/timeout, reply handed back.
 """
 from __future__ import annotations
 
@@ -17,6 +21,12 @@ import re
 from lib import ch, core, gen
 
 H = os.path.join(core.VERIF, "harness", "h17_mixins.py")
+HC = os.path.join(core.VERIF, "harness", "h17_call.py")
+TYPES = {"GetOperation": ("GetOperationRequest", "Operation"), "CancelOperation": ("CancelOperationRequest", None),
+         "ListOperations": ("ListOperationsRequest", "ListOperationsResponse"), "DeleteOperation": ("DeleteOperationRequest", None),
+         "WaitOperation": ("WaitOperationRequest", "Operation"), "SetIamPolicy": ("SetIamPolicyRequest", "Policy"),
+         "GetIamPolicy": ("GetIamPolicyRequest", "Policy"), "TestIamPermissions": ("TestIamPermissionsRequest", "TestIamPermissionsResponse"),
+         "GetLocation": ("GetLocationRequest", "Location"), "ListLocations": ("ListLocationsRequest", "ListLocationsResponse")}
 CANON = {"GetOperation": "/google.longrunning.Operations/GetOperation", "CancelOperation": "/google.longrunning.Operations/CancelOperation",
          "ListOperations": "/google.longrunning.Operations/ListOperations", "DeleteOperation": "/google.longrunning.Operations/DeleteOperation",
          "WaitOperation": "/google.longrunning.Operations/WaitOperation", "SetIamPolicy": "/google.iam.v1.IAMPolicy/SetIamPolicy",
@@ -35,10 +45,26 @@ def methods_of(src, cls):
     return set()
 
 
+def all_mixins_yaml(hm):
+    return {"type": "google.api.Service", "apis": [{"name": "google.longrunning.Operations"}, {"name": "google.iam.v1.IAMPolicy"},
+                                                   {"name": "google.cloud.location.Locations"}],
+            "http": {"rules": [hm.rule_for(m) for m in sorted(CANON)]}}
+
+
 def program_diff(label):
+    from checks.c03 import stub_table
     hm = ch.load_module(H)
     all_mixins = set(CANON)
-    if label == "yaml":
+    if label == "all":
+        exp = set(CANON)
+        g = gen.generate(hm.files(0), parameter="transport=grpc+rest", service_yaml=all_mixins_yaml(hm))
+    elif label == "yaml+add-iam-methods":
+        # the legacy option together with the IAM mixin in the YAML: the three IAM RPCs on sync and async alike
+        exp = {"GetOperation", "SetIamPolicy", "GetIamPolicy", "TestIamPermissions"}
+        yaml_cfg = {"type": "google.api.Service", "apis": [{"name": "google.longrunning.Operations"}, {"name": "google.iam.v1.IAMPolicy"}],
+                    "http": {"rules": [hm.rule_for(m) for m in sorted(exp)]}}
+        g = gen.generate(hm.files(0), parameter="transport=grpc+rest,add-iam-methods", service_yaml=yaml_cfg)
+    elif label == "yaml":
         exp = {"GetOperation", "CancelOperation", "SetIamPolicy", "GetIamPolicy", "TestIamPermissions", "GetLocation"}
         rules = [hm.rule_for(m) for m in sorted(exp)]
         yaml_cfg = {"type": "google.api.Service", "apis": [{"name": "google.longrunning.Operations"}, {"name": "google.iam.v1.IAMPolicy"},
@@ -63,12 +89,26 @@ def program_diff(label):
             else:
                 bad[key] = f"{kind} client of {cname} exposes mixins {sorted(got)}, configured {sorted(exp)}"
         grpc = g.text(f"services/{svc}/transports/grpc.py")
+        tables = {"grpc": stub_table(grpc, "GrpcTransport"),
+                  "grpc_asyncio": stub_table(g.text(f"services/{svc}/transports/grpc_asyncio.py"), "GrpcAsyncIOTransport")}
+        srcs = {"grpc": g.text(f"services/{svc}/client.py"), "grpc_asyncio": g.text(f"services/{svc}/async_client.py")}
         for m in exp:
-            key = f"{label}:{svc}:stub:{m}"
-            if f'"{CANON[m]}"' in grpc or f"'{CANON[m]}'" in grpc:
-                oks.append(key)
-            else:
-                bad[key] = f"gRPC transport of {cname} has no stub for {CANON[m]}"
+            for tname, table in tables.items():
+                key = f"{label}:{svc}:stub:{tname}:{m}"
+                # mixin methods look the wrapped method up; the legacy IAM methods wrap transport.<rpc> on the fly
+                mm = re.search(rf"def {snake(m)}\(\s*self\b.*?(?:_wrapped_methods\[|wrap_method\(\s*)self\.(?:_client\.)?_transport\.(\w+)\b",
+                               srcs[tname], re.S)
+                attr = mm.group(1) if mm else None
+                got = table.get(attr)
+                req_t, rsp_t = TYPES[m]
+                ok = (got is not None and got[0] == "unary_unary" and got[1] == CANON[m]
+                      and str(got[2]).endswith(f"{req_t}.SerializeToString")
+                      and (str(got[3]).endswith(f"{rsp_t}.FromString") if rsp_t else got[3] in (None, "None")))
+                if ok:
+                    oks.append(key)
+                else:
+                    bad[key] = (f"{snake(m)} of the {tname} client of {cname} dispatches through transport.{attr}; its stub "
+                                f"{got} is not (unary_unary, {CANON[m]}, {req_t}, {rsp_t})")
         for m in all_mixins - exp:
             if CANON[m] in grpc:
                 bad[f"{label}:{svc}:stub-extra:{m}"] = f"gRPC transport of {cname} has a stub for the unconfigured {m}"
@@ -82,7 +122,8 @@ def body(chk: core.Check):
               "unrelated rule on/off x API-defined IAM RPC in {none, first service, later service, other IAM RPC}")
     chk.assumptions.append("IAM mixins yield all-or-nothing when the API defines any IAM RPC (the code's documented reading)")
     chk.stubs.append(gen.PANDOC_STUB_NOTE)
-    chk.outside += ["calling the mixin methods (gRPC / HTTP)", "request/response types of the mixin RPCs on the wire"]
+    chk.outside += ["the wire below transport._wrapped_methods (channel, HTTP session)", "REST calls of the mixin RPCs (the rule rows "
+                    "are compared, not the HTTP request)"]
     src = open(f"{core.REPO}/gapic/schema/api.py").read()
     i = src.index("def mixin_api_methods")
     chk.encoded("gapic/schema/api.py: API.mixin_api_methods/mixin_http_options", src[i:i + 1400])
@@ -96,16 +137,57 @@ def body(chk: core.Check):
     cn = ch.run(H, ["selection"], timeout=400, env={"VERIF_CANARY": "first-service-only", "VERIF_PART": "2"}, jobs=1)[0]
     chk.canary("_has_iam_overrides looking at the first service only (in-memory mutant)", cn["status"] == "refuted", cn.get("call", cn["status"]))
     chk.twin("selection: every partition confirmed over a non-empty path set", all(r["status"] != "no_precondition" for r in res))
-    for label in ("yaml", "none", "add-iam-methods"):
+    for label in ("yaml", "none", "add-iam-methods", "yaml+add-iam-methods", "all"):
         oks, bad = program_diff(label)
         chk.programs += 1
         for k in oks:
             chk.ok("emitted-mixins (concrete)", k)
         for k, text in bad.items():
             chk.violation(k, text, {"kind": "program", "label": label, "diff_key": k})
+    if chk.only("call"):
+        call_part(chk)
+
+
+def call_part(chk):
+    """emitted mixin methods of a program with all ten mixins: dispatch, request type, routing header, options, reply"""
+    hm = ch.load_module(H)
+    g = gen.generate(hm.files(0), parameter="transport=grpc+rest", service_yaml=all_mixins_yaml(hm))
+    chk.programs += 1
+    env = {"VERIF_EMITTED": g.outdir}
+    for which in ("client", "async_client"):
+        src = g.text(f"services/alpha/{which}.py")
+        i = src.index("def list_operations")
+        chk.encoded(f"emitted services/alpha/{which}.py: the ten mixin methods", src[i:])
+    chk.encoded("gapic/templates/.../services/%service/_mixins.py.j2", open(f"{core.REPO}/gapic/templates/%namespace/%name_%version/%sub/services/%service/_mixins.py.j2").read())
+    chk.encoded("gapic/templates/.../services/%service/_async_mixins.py.j2", open(f"{core.REPO}/gapic/templates/%namespace/%name_%version/%sub/services/%service/_async_mixins.py.j2").read())
+    chk.bound("mixin_calls", "10 mixin RPCs x request kind {dict, message} x 3 routing values (incl. empty and one with a blank) x "
+              "options {given, defaulted}; sync and asyncio")
+    chk.stubs += ["transport._wrapped_methods entries are recorders (lib/fakes.py); gapic_v1.routing_header.to_grpc_metadata "
+                  "records its argument; the request classes are the REAL operations_pb2 / iam_policy_pb2 / locations_pb2 classes"]
+    res = ch.run(HC, ["mixin_call"], timeout=300, env=env, jobs=chk.jobs)
+    ch.settle(chk, HC, res, "mixin-call")
+    for r in res:
+        chk.sample({"harness": "h17_call." + r["func"], "status": r["status"], "seconds": r["seconds"]})
+    tw = ch.run(HC, ["twin"], timeout=300, env=env, jobs=1)[0]
+    chk.twin("mixin_call: test_iam_permissions(message, value with a blank, defaulted options) reaches the comparison", tw["status"] == "refuted")
+    import concurrent.futures as cf
+    cans = [("wrong-mixin-rpc", "sync cancel_operation dispatching through transport.delete_operation (in-memory mutant)"),
+            ("async-drops-metadata", "async get_location dropping the caller's metadata (in-memory mutant)")]
+    with cf.ThreadPoolExecutor(max_workers=2) as ex:
+        futs = [(c, ex.submit(ch.run, HC, ["mixin_call"], 300, dict(env, VERIF_CANARY=c[0]), 1)) for c in cans]
+        for c, f in futs:
+            r = f.result()[0]
+            chk.canary(c[1], r["status"] == "refuted", r.get("call", r["status"]))
 
 
 def replay(chk, data):
+    if str(data.get("harness", "")).endswith("h17_call.py"):
+        hm = ch.load_module(H)
+        g = gen.generate(hm.files(0), parameter="transport=grpc+rest", service_yaml=all_mixins_yaml(hm))
+        env = dict(data.get("env") or {})
+        env["VERIF_EMITTED"] = g.outdir
+        rep, detail = ch.replay_call(HC, data["call"], env)
+        return f"{data['call']} -> {detail}" if rep else None
     if data.get("kind") == "program":
         _o, bad = program_diff(data["label"])
         return bad.get(data["diff_key"])
